@@ -272,6 +272,53 @@ class LemmaWeightedScaled(_Ind):
     loops = {0: Loop(inv=lambda s, l: [z3.And(0 <= T(l.j), T(l.j) <= s.n), s.A(T(l.j)) == s.Bp(T(l.j))])}
 
 
+def stmt_welford(n, k, nk, a1, a2, s1, s2, t1, t2, c, d, q1, q2, m2o, m2n):
+    """one batched Welford step over the reals: old moments (a1, a2) of n rows, batch moments (s1, s2) of k rows, totals (t1, t2) of nk rows;
+    c / d the old / new mean, q1 / q2 the two batch sums the code forms, m2o / m2n the old / new sum of squared deviations"""
+    hyp = z3.And(n >= 0, k >= 0, nk == n + k, nk >= 1, t1 == a1 + s1, t2 == a2 + s2,
+                 z3.Or(z3.And(n > 0, c == a1 / n, m2o == a2 - a1 * a1 / n), z3.And(n == 0, c == 0, m2o == 0, a1 == 0, a2 == 0)),
+                 q1 == s1 - k * c, d == c + q1 / nk, q2 == s2 - (c + d) * s1 + k * c * d, m2n == m2o + q2)
+    return hyp, z3.And(d == t1 / nk, m2n == t2 - t1 * t1 / nk)
+
+
+def stmt_variance(nr, t1, t2, z1, z2, mu, v, m2):
+    """sum of squared deviations from the mean, expanded (v) = moment form (m2)"""
+    hyp = z3.And(nr >= 1, z1 == 0, z2 == 0, mu == t1 / nr, v == (t2 - z2) - (mu + mu) * (t1 - z1) + nr * mu * mu, m2 == t2 - t1 * t1 / nr)
+    return hyp, v == m2
+
+
+class _Algebra(Contract):
+    """a lemma of real arithmetic (no induction): requires hyp, ensures goal, over free real constants"""
+    prop = 'C12'
+    fin = 2
+    target = '@verif/lemmas/c12_lemmas.py::lemma_algebra'
+    names, stmt = (), None
+
+    def setup(self, vc):
+        hyp, goal = type(self).stmt(*z3.Reals(' '.join(self.names)))
+        return NS(hyp=hyp, goal=goal), (), {}
+
+    def requires(self, s):
+        return [s.hyp]
+
+    def ensures(self, s, result):
+        return [(self.__doc__.strip().splitlines()[0], s.goal)]
+
+
+class LemmaWelford(_Algebra):
+    """batched Welford step: new mean = (a1+s1)/(n+k), new M2 = (a2+s2) - (a1+s1)^2/(n+k)"""
+    label = 'welford-step'
+    names = 'n k nk a1 a2 s1 s2 t1 t2 c d q1 q2 m2o m2n'.split()
+    stmt = staticmethod(stmt_welford)
+
+
+class LemmaVariance(_Algebra):
+    """A2 - 2 mu A1 + n mu^2 = A2 - A1^2/n for mu = A1/n"""
+    label = 'variance'
+    names = 'nr t1 t2 z1 z2 mu v m2'.split()
+    stmt = staticmethod(stmt_variance)
+
+
 # ---------------------------------------------------------------- distance_as_discrepancy
 def _offsets(widths):
     offs = [z3.IntVal(0)]
@@ -612,7 +659,11 @@ class AddData(Contract):
 
     def setup(self, vc):
         N, k, col = z3.Ints('N k col')
-        vc.fin_bounds.extend([N, k, col])
+        if self.first:
+            N = z3.IntVal(0)
+            vc.fin_bounds.extend([k, col])
+        else:
+            vc.fin_bounds.extend([N, k, col])
         row = z3.Function('row', I, I, R)
         A1, A2 = z3.Function('A1', I, R), z3.Function('A2', I, R)
         widths = []
@@ -647,11 +698,9 @@ class AddData(Contract):
 
     def requires(self, s):
         n1 = s.N + s.k
-        out = [s.k >= 1, 0 <= s.col, s.col < s.W] + [w >= 1 for w in s.widths] + \
-            [prefix_def(s.A1, n1, s.x), prefix_def(s.A2, n1, lambda r: sq(s.x(r)))]
-        if self.first:
-            out.append(s.N == 0)
-        else:
+        out = [s.k >= (1 if self.first else 0), 0 <= s.col, s.col < s.W] + [w >= 1 for w in s.widths] + \
+            [prefix_def(s.A1, n1, s.x), prefix_def(s.A2, n1, lambda r: sq(s.x(r))), s.A1(0) == 0, s.A2(0) == 0]     # the last two: ground conjuncts of the definitions, repeated for the ground slice
+        if not self.first:
             Nr = real(s.N)
             out += [s.N >= 1, ('store_ok(N) at the column', z3.And(s.mold == s.A1(s.N) / Nr, s.m2old == s.A2(s.N) - sq(s.A1(s.N)) / Nr))]
         return out
@@ -666,6 +715,8 @@ class AddData(Contract):
             sum_col_is(vc, rec, k, s.W, s.col, summand, Q, 'sum of deviations from the old mean')
             vc.assume(use(stmt_shift_lin(N, k, x, s.mold, s.A1, Q)))                   # LemmaShiftLin
             vc.cut('sum_i (x_i - m) = dA1 - k m', Q(k) == s.A1(N + k) - s.A1(N + 0) - real(k) * s.mold)
+            s.q1 = rec['res'].at(s.col)
+            vc.cut('first batch sum of the code: q1 = dA1 - k m', s.q1 == s.A1(N + k) - s.A1(N + 0) - real(k) * s.mold)
 
         def h2(vc, rec):
             P = vc.fresh_fn('P', I, R)
@@ -676,6 +727,9 @@ class AddData(Contract):
             vc.assume(use(stmt_shift_mom(N, k, x, s.mold, mnew, s.A1, s.A2, P)))       # LemmaShiftMom
             vc.cut('sum_i (x_i - m)(x_i - m\') = dA2 - (m + m\') dA1 + k m m\'',
                    P(k) == (s.A2(N + k) - s.A2(N + 0)) - (s.mold + mnew) * (s.A1(N + k) - s.A1(N + 0)) + real(k) * s.mold * mnew)
+            s.q2 = rec['res'].at(s.col)
+            vc.cut('second batch sum of the code: q2 = dA2 - (m + m\') dA1 + k m m\'',
+                   s.q2 == (s.A2(N + k) - s.A2(N + 0)) - (s.mold + mnew) * (s.A1(N + k) - s.A1(N + 0)) + real(k) * s.mold * mnew)
         return {('np.sum', 0): h1, ('np.sum', 1): h2}
 
     def lemmas_at_exit(self, s, result):
@@ -683,17 +737,30 @@ class AddData(Contract):
         st = s.self.state['store']
         if not (isinstance(st[1], SArr) and isinstance(st[2], SArr) and st[1].ndim == 1 and st[2].ndim == 1):
             return []
-        n1 = s.N + s.k
+        if not (s.has('q1') and s.has('q2')):
+            return []
+        N, k = s.N, s.k
+        n1 = N + k
         nr = real(n1)
         mu = s.A1(n1) / nr
-        vc.cut('new mean = A1(N+k)/(N+k)', st[1].at(s.col) == mu)
-        vc.cut('new M2 = A2(N+k) - A1(N+k)^2/(N+k)', st[2].at(s.col) == s.A2(n1) - sq(s.A1(n1)) / nr)
+        mnew, m2new = st[1].at(s.col), st[2].at(s.col)
+        # what the code did with the two sums (unfolding the element-wise updates at the column)
+        vc.cut('the code counts the rows: store[0] = N + k', T(st[0]) == n1)
+        vc.cut('mean update of the code: m\' = m + q1/(N+k)', z3.And(s.mnew == s.mold + s.q1 / nr, mnew == s.mnew))
+        vc.cut('M2 update of the code: M2\' = M2 + q2', m2new == s.m2old + s.q2)
+        vc.cut('totals: A(N+k) = A(N) + dA', z3.And(s.A1(n1) == s.A1(N) + (s.A1(N + k) - s.A1(N + 0)), s.A2(n1) == s.A2(N) + (s.A2(N + k) - s.A2(N + 0))))
+        # the algebra of one Welford step (LemmaWelford), instantiated with the terms of this run
+        vc.assume(use(stmt_welford(real(N), real(k), nr, s.A1(N), s.A2(N), s.A1(N + k) - s.A1(N + 0), s.A2(N + k) - s.A2(N + 0), s.A1(n1), s.A2(n1),
+                                   s.mold, s.mnew, s.q1, s.q2, s.m2old, m2new)))
+        vc.cut('new mean = A1(N+k)/(N+k)', mnew == mu)
+        vc.cut('new M2 = A2(N+k) - A1(N+k)^2/(N+k)', m2new == s.A2(n1) - s.A1(n1) * s.A1(n1) / nr)
         # population variance by its definition: V(n) = sum_{r<n} (x_r - mu)^2, mu the mean of ALL rows
         V = vc.fresh_fn('V', I, R)
         vc.assume(prefix_def(V, n1, lambda r: (s.x(r) - mu) * (s.x(r) - mu)))
         vc.assume(use(stmt_shift_mom(0, n1, s.x, mu, mu, s.A1, s.A2, V)))               # LemmaShiftMom0
         vc.cut('sum_r (x_r - mu)^2 = A2 - 2 mu A1 + n mu^2', V(n1) == (s.A2(n1) - s.A2(0)) - (mu + mu) * (s.A1(n1) - s.A1(0)) + nr * mu * mu)
-        vc.cut('M2 is the sum of squared deviations of ALL rows from their mean', st[2].at(s.col) == V(n1))
+        vc.assume(use(stmt_variance(nr, s.A1(n1), s.A2(n1), s.A1(0), s.A2(0), mu, V(n1), m2new)))     # LemmaVariance
+        vc.cut('M2 is the sum of squared deviations of ALL rows from their mean', m2new == V(n1))
         s.V, s.mu = V, mu
         return []
 
@@ -708,7 +775,7 @@ class AddData(Contract):
         return [('store[0] = number of rows added in the round', T(st[0]) == n1),
                 ('store[1] = mean of ALL rows added in the round (one entry per column)', z3.And(st[1].shape[0] == s.W, st[1].at(s.col) == s.A1(n1) / nr)),
                 ('store[2] = sum of squared deviations of ALL rows from that mean', z3.And(st[2].shape[0] == s.W, st[2].at(s.col) == s.V(n1))),
-                ('store_ok(N+k): the invariant in moment form', st[2].at(s.col) == s.A2(n1) - sq(s.A1(n1)) / nr),
+                ('store_ok(N+k): the invariant in moment form', st[2].at(s.col) == s.A2(n1) - s.A1(n1) * s.A1(n1) / nr),
                 ('scale = population standard deviation of ALL rows of the round: sqrt(sum (x - mean)^2 / n), whatever the batching',
                  z3.And(sc.shape[0] == s.W, sc.at(s.col) == npspec._sqrt(s.V(n1) / nr)) if isinstance(sc, SArr) and sc.ndim == 1 else z3.BoolVal(False)),
                 ('weights and distance functions are untouched',
@@ -738,6 +805,8 @@ class UpdateDistance(Contract):
         s.w = [None] + [SArr.fresh('w%d' % i, (W,)) for i in range(1, self.k_old)]
         s.dfs = [functools.partial(s.eucl, w=(None if i == 0 else SArr.fresh('ww%d' % i, (W,)))) for i in range(self.k_old)]
         s.w0, s.dfs0 = list(s.w), list(s.dfs)
+        s.old_arrays = [a for a in s.w if isinstance(a, SArr)] + [f.keywords['w'] for f in s.dfs if isinstance(f.keywords['w'], SArr)]
+        s.old_snap = [a.snapshot() for a in s.old_arrays]
         st = {'attr_dict': {'distance': s.eucl}, 'w': s.w, 'distance_functions': s.dfs, 'scale': s.scale,
               'store': [SInt(N), SArr.fresh('mean', (W,)), SArr.fresh('m2', (W,))]}
         s.self = make_object('AdaptiveDistanceStub', attrs=dict(state=st), methods=_ad_methods(vc, 'init_adaptation_round', 'init_state'))
@@ -753,6 +822,8 @@ class UpdateDistance(Contract):
         out = [('append-only: earlier weights and distance functions stay available unchanged',
                 z3.BoolVal(w is s.w and dfs is s.dfs and len(w) == k + 1 and len(dfs) == k + 1 and all(a is b for a, b in zip(w, s.w0)) and all(a is b for a, b in zip(dfs, s.dfs0)))),
                ('round stores are reset', z3.BoolVal(_store_is_zero(st.get('store')))),
+               ('the weight vectors of the earlier distances are not modified',
+                z3.And([z3.BoolVal(True)] + [forall_range(0, s.W, lambda j, a=a, b=b: a.at(j) == b.at(j), 'j') for a, b in zip(s.old_arrays, s.old_snap)])),
                ('the scale itself is not modified', z3.And(z3.BoolVal(st['scale'] is s.scale), forall_range(0, s.W, lambda j: s.scale.at(j) == s.scale0.at(j), 'j')))]
         if not (len(w) == k + 1 and len(dfs) == k + 1):
             return out
@@ -846,7 +917,7 @@ CONTRACTS = [DistanceAsDiscrepancy('s'), DistanceAsDiscrepancy('v'), DistanceAsD
              AdaptiveInit(2), AdaptiveInit(0), InitState(), InitRound(),
              AddData(True, 's'), AddData(False, 's'), AddData(True, 'sv'), AddData(False, 'sv'), AddData(False, 'vsv'),
              UpdateDistance(1), UpdateDistance(2), NestedDistance(1), NestedDistance(2), NestedDistance(3),
-             LemmaSumExt(), LemmaShiftLin(), LemmaShiftMom(), LemmaShiftMom0(), LemmaWeightedScaled()]
+             LemmaSumExt(), LemmaShiftLin(), LemmaShiftMom(), LemmaShiftMom0(), LemmaWeightedScaled(), LemmaWelford(), LemmaVariance()]
 
 TRUSTED_BASE = ['pyvc engine: proxies, path forking, numpy spec table (column_stack / atleast_2d / concatenate / reshape layouts, sum(axis=0) = column-wise mathematical finite sum, elementwise broadcasting)',
                 'scipy.spatial.distance.cdist(XA, XB, metric, **kw)[i, j] = metric_kw(XA[i], XB[j]): pure, row-wise; shape (nA, nB); ValueError on unequal widths; '
@@ -857,12 +928,17 @@ TRUSTED_BASE = ['pyvc engine: proxies, path forking, numpy spec table (column_st
 ASSUMPTIONS = ['A-REAL: floats are reals (the Welford update exists because they are not; only its real-number meaning is proved)',
                'A-INT: integers are mathematical',
                'summary outputs are (B,) or (B, w) arrays with a common batch size B >= 1; observed summaries have the matching width (shape (1,), 0-d, (1, w) or (w,))',
-               'add_data: every batch has k >= 1 rows; tuples of summaries of CONCRETE arity (1..3, listed layouts) with symbolic batch size and widths',
+               'add_data: the first batch of a round has k >= 1 rows (later batches may be empty); tuples of summaries of CONCRETE arity (1..3, listed layouts) with symbolic batch size and widths',
                'update_distance: every column of scale is non-zero (a constant summary column gives weight inf and NaN distances: the formula of the property is undefined there)',
                'history quantifier: store_ok(N) is the inductive invariant of a round (established by init_adaptation_round with N = 0, preserved by every add_data); '
                'the induction over the calls of a round is the meta-argument, each step is an obligation',
                'an arbitrary column / row is a free constant of the VC (validity for it = validity for all columns / rows)']
-NOT_PROVED = []
+NOT_PROVED = ['"numbers and widths of summaries": widths and batch sizes are symbolic (all values), but the NUMBER of summaries is concrete per contract - proved for tuples of 1, 2 and 3 '
+              'summaries in the scalar/vector patterns s, v, ss, sv, vs, vsv (python tuples have no symbolic arity in the engine); larger arities are not decided',
+              '"all numbers of update rounds": update_distance is proved for 1 and 2 earlier distance functions and nested_distance for 1, 2 and 3 (the code appends to / iterates over a '
+              'python list uniformly; a list of symbolic length is not modelled); more rounds are not decided',
+              '"equals the chosen scipy metric": relative to the assumed cdist contract (row-wise pure function of XA[i], XB[j], metric and keyword arguments); the numerical formulas of the '
+              'individual scipy metrics are not re-proved (euclidean closed form only, sanity-tested)']
 
 
 # ---------------------------------------------------------------- sanity tests of the assumed library contracts
